@@ -183,3 +183,39 @@ def h4(prog):
     if n_cmp < 20:
         raise Broken("fewer address comparisons than confirmed by hand (20): %d" % n_cmp)
     return inst, findings
+
+
+def h5(prog):
+    """every piece coverage::intersect adds to its result is clipped by BOTH the stored range and the queried range:
+    its length expression depends on the query's extent (derived from the `length` parameter) and on a stored range"""
+    inst, findings = [], []
+    f = prog.func_opt("coverage::intersect")
+    if f is None:
+        raise Broken("anchor coverage::intersect vanished")
+    ps = {p["n"]: p["id"] for p in f["params"]}
+    if "length" not in ps or "start" not in ps:
+        raise Broken("coverage::intersect no longer takes (start, length)")
+    tainted = {ps["length"]}
+    decls = [v for x in walk(f["body"]) if x.get("k") == "decl" for v in x["vars"]]
+    changed = True
+    while changed:
+        changed = False
+        for v in decls:
+            if v["id"] not in tainted and v.get("init") is not None and any(y.get("k") == "ref" and y.get("id") in tainted for y in walk(v["init"])):
+                tainted.add(v["id"])
+                changed = True
+    adds = [c for c in calls(f["body"]) if c.get("fn") == "add" and c.get("cls") == "coverage" and len(c["a"]) == 2]
+    if len(adds) < 2:
+        raise Broken("coverage::intersect no longer builds its result with coverage::add (unmodelled shape)")
+    for c in adds:
+        L = c["a"][1]
+        dep_query = any(y.get("k") == "ref" and y.get("id") in tainted for y in walk(L))
+        dep_range = any(y.get("k") == "mem" and y["n"] in ("start", "length") for y in walk(L)) or \
+            any(y.get("k") == "ref" and y.get("d") == "local" and y.get("id") not in tainted and y.get("id") not in ps.values() for y in walk(L))
+        key = "H5:coverage::intersect@%s" % c["l"]
+        inst.append((key, {"length": short(L)[:70], "clipped_by_query": dep_query, "clipped_by_range": dep_range}))
+        if not dep_query:
+            findings.append({"key": "H5:coverage::intersect:%s" % ("prev" if "j" in short(L) else c["l"]), "where": "libzwerg/" + c["l"],
+                             "msg": "coverage::intersect adds `%s` addresses without clipping to the end of the queried range: the piece taken from a stored range that begins before the query extends past the query (`1 10 aset 2 3 aset overlap` yields [2, 10) instead of [2, 3))" % short(L)[:60],
+                             "detail": None})
+    return inst, findings
